@@ -26,7 +26,8 @@ GROUPS = {
     "array":   dict(props=["C14"], cxx="clang++", san=ASAN_UBSAN, tulz=[], vsched=False),
     "subject": dict(props=["C05", "C10", "C16"], cxx="g++", san=ASAN_UBSAN, tulz=[], vsched=False),
     "router":  dict(props=["C06", "C13"], cxx="g++", san=ASAN_UBSAN + ["-fno-sanitize=vptr"], vsched=False,
-                    tulz=[R + "SubjectRouter.cpp", R + "RoutingLevelView.cpp", R + "RoutingKeyBuilder.cpp", R + "RoutingKey.cpp"]),
+                    tulz=[R + "SubjectRouter.cpp", R + "RoutingLevelView.cpp", R + "RoutingKeyBuilder.cpp", R + "RoutingKey.cpp",
+                          "src/threading/rwp/Resource.cpp"]),
     "rwlock":  dict(props=["C01", "C02", "C03", "C12"], cxx="clang++", san=ASAN_UBSAN, vsched=True,
                     tulz=["src/threading/rwp/Resource.cpp"]),
     "crouter": dict(props=["C11"], cxx="g++", san=ASAN_UBSAN + ["-fno-sanitize=vptr"], vsched=True,
